@@ -249,6 +249,50 @@ fn flatten_json(v: &serde_json::Value, prefix: &str, out: &mut BTreeMap<String, 
     }
 }
 
+/// first difference between two JSON values: structure and strings exact, numbers within 0.0011 + 1e-6 relative
+fn json_diff(a: &serde_json::Value, b: &serde_json::Value, path: &str) -> Option<String> {
+    use serde_json::Value as J;
+    match (a, b) {
+        (J::Number(x), J::Number(y)) => {
+            let (x, y) = (x.as_f64().unwrap_or(f64::NAN), y.as_f64().unwrap_or(f64::NAN));
+            if (x - y).abs() <= 0.0011 + 1e-6 * x.abs().max(y.abs()) {
+                None
+            } else {
+                Some(format!("{path}: {x} vs {y}"))
+            }
+        }
+        (J::Object(x), J::Object(y)) => {
+            if x.len() != y.len() {
+                return Some(format!("{path}: {} vs {} keys", x.len(), y.len()));
+            }
+            for (k, v) in x {
+                match y.get(k) {
+                    Some(w) => {
+                        if let Some(d) = json_diff(v, w, &format!("{path}.{k}")) {
+                            return Some(d);
+                        }
+                    }
+                    None => return Some(format!("{path}.{k} missing")),
+                }
+            }
+            None
+        }
+        (J::Array(x), J::Array(y)) => {
+            if x.len() != y.len() {
+                return Some(format!("{path}: lengths {} vs {}", x.len(), y.len()));
+            }
+            x.iter().zip(y).enumerate().find_map(|(i, (v, w))| json_diff(v, w, &format!("{path}[{i}]")))
+        }
+        (x, y) => {
+            if x == y {
+                None
+            } else {
+                Some(format!("{path}: {x} vs {y}"))
+            }
+        }
+    }
+}
+
 fn check_json(ep: &EnergyPerformance, json: &str, cfg: &str, out: &mut Out) {
     out.compared += 1;
     let v: serde_json::Value = match serde_json::from_str(json) {
@@ -286,8 +330,9 @@ fn check_json(ep: &EnergyPerformance, json: &str, cfg: &str, out: &mut Out) {
     match serde_json::from_str::<EnergyPerformance>(json) {
         Ok(back) => match serde_json::to_string(&back).map_err(|e| e.to_string()).and_then(|t| serde_json::from_str::<serde_json::Value>(&t).map_err(|e| e.to_string())) {
             Ok(v2) => {
-                if v2 != v {
-                    out.viol("json_reads_back_equal", &[], cfg, "re-serialized value differs", "the same JSON value");
+                // equal up to the documented precision (3 decimals; f32 rounding is not idempotent for huge values)
+                if let Some(d) = json_diff(&v, &v2, "") {
+                    out.viol("json_reads_back_equal", &[], cfg, format!("re-serialized value differs at {d}"), "the same JSON value");
                 }
             }
             Err(e) => out.viol("json_reads_back_equal", &[], cfg, format!("{e}"), "serializable"),
@@ -554,6 +599,9 @@ fn extra_letters() -> Vec<Letter> {
         Letter::one(d("CAL", &k(&[1, 3]))),
         Letter::many(vec![a(Some(1), &k(&[1, 1])), o(1, "ACS", &k(&[1, 1])), o(1, "CAL", &k(&[3, 1]))]),
         Letter::one(u(Some(1), "REF", "ELECTRICIDAD", &[123456, 100 << 16])),
+        // very large building: weighted energy beyond 2^31 / 1000
+        Letter::one(u(Some(1), "CAL", "GASNATURAL", &[500_000_000, 100])),
+        Letter::one(p(Some(0), "EL_INSITU", &[300_000_000, 900_000_000])),
         Letter::one(o(9, "REF", &[-300, -100])),
     ]
 }
